@@ -242,6 +242,19 @@ class Check(object):
             broken.append("lake build failed:\n" + out[-3000:])
             return broken
         thms, bad = audit(self.id)
+        if self.tier == "thorough":
+            # independent re-check of the compiled property module by the toolchain's kernel re-checker
+            mods = [t for t in targets if t.startswith("Amoco.")]
+            try:
+                p = subprocess.run(["lake", "env", "leanchecker"] + mods, cwd=LEAN, stdout=subprocess.PIPE,
+                                   stderr=subprocess.STDOUT, text=True, timeout=3000)
+                okc = p.returncode == 0
+                self.oblige("leanchecker " + " ".join(mods), okc, "" if okc else p.stdout[-1500:])
+                if not okc:
+                    bad.append("leanchecker rejects %s: %s" % (mods, p.stdout[-800:]))
+            except Exception as ex:
+                self.oblige("leanchecker", False, repr(ex))
+                bad.append("leanchecker could not run: %r" % ex)
         for t in thms:
             self.oblige("theorem " + t, not any(t in b for b in bad))
         for b in bad:
